@@ -216,6 +216,13 @@ class C08(Check):
             fails.append(Failure("oracle", "filtered-dead-end", "a filtered history reached a state with no "
                                  "available operation although the schedule was incomplete",
                                  observed=obs["filtered"]))
+        elif mu is not None and obs["filtered"][0] != mu:
+            # OPT(I) computed by the extracted exhaustive search over ALL dispatch histories of the model (proved to
+            # be the optimum: C08_opt); independent of the implementation's own unfiltered search
+            fails.append(Failure("oracle", "optimum-lost",
+                                 f"best makespan reachable through the dominated-operations filter is "
+                                 f"{obs['filtered'][0]}, the optimal makespan of the instance (extracted verified "
+                                 f"search) is {mu}", expected=mu, observed=obs["filtered"][0]))
         elif opt is not None and obs["filtered"][0] != opt:
             fails.append(Failure("oracle", "optimum-lost",
                                  f"best makespan reachable through the dominated-operations filter is "
